@@ -82,7 +82,8 @@ def run(case: dict, lean: Lean) -> Outcome:
             return b.build(), cs
         st = rnd.getstate(); p, cs = build(); rnd.setstate(st); p2, cs2 = build()
         d = _data(rnd, 100, 6, 1000, 6); seed = rnd.choice([0, 0, 1, rnd.randrange(10**6), rnd.randrange(10**6)])      # 0 is a seed like any other
-        p.train(d, TrainingOptions(rng=seed)); p2.train(d, TrainingOptions(rng=seed))
+        opts0 = TrainingOptions(rng=seed)          # kept: a later call may be handed this very object again
+        p.train(d, opts0); p2.train(d, TrainingOptions(rng=seed))
         # the model of the training loop: which nodes are trained, and the spawn key of the seed each one receives
         log = lean.call("c18.train_all", {"nodes": [[k, t] for k, t in enumerate(kinds)], "seeded": True})
         want = [int(np.random.default_rng(np.random.SeedSequence(seed, spawn_key=tuple(e["spawn_key"]))).integers(1 << 30)) for e in log]
@@ -96,14 +97,15 @@ def run(case: dict, lean: Lean) -> Outcome:
         # further `Pipeline.train` calls with either setting of `retrain`, any kind of seed and other data: every component's state must
         # come from the call the pipeline-training model says (skip = untouched, retrain = the new data and the seed spawned for it)
         import numpy as _np
-        more = [(rnd.choice([True, False, False]), rnd.choice(["none", "int", "int0", "seq", "gen"])) for _ in range(rnd.randint(1, 3))]
+        more = [(rnd.choice([True, False, False]), rnd.choice(["none", "int", "int0", "seq", "gen", "reuse"])) for _ in range(rnd.randint(1, 3))]
+        more = [(True, sk) if sk == "reuse" else (rt, sk) for rt, sk in more]          # the first call's options object again (its retrain flag is the default, True)
         dsets = [d] + [_data(rnd, 100 + 3 * j, 5 + j, 1000 + j, 6) for j in range(1, len(more) + 1)]
         msteps = [[0, True, True]]; seeds_used = [seed]
         for j, (rt, sk) in enumerate(more, start=1):
-            sv = {"none": None, "int": rnd.randrange(1, 10**6), "int0": 0, "seq": _np.random.SeedSequence(rnd.randrange(10**6)), "gen": _np.random.default_rng(rnd.randrange(10**6))}[sk]
+            sv = {"none": None, "int": rnd.randrange(1, 10**6), "int0": 0, "seq": _np.random.SeedSequence(rnd.randrange(10**6)), "gen": _np.random.default_rng(rnd.randrange(10**6)), "reuse": seed}[sk]
             seeds_used.append(sv.entropy if sk == "seq" else sv)
-            p.train(dsets[j], TrainingOptions(rng=sv, retrain=rt))
-            msteps.append([j, rt, sk in ("int", "int0", "seq")])
+            p.train(dsets[j], opts0 if sk == "reuse" else TrainingOptions(rng=sv, retrain=rt))          # a seed is a value: the same object means the same seed, from its start
+            msteps.append([j, rt, sk in ("int", "int0", "seq", "reuse")])
         classes_p = ["pipeline training", "repeated pipeline training"] + sorted({("retrain" if rt else "skip") + " with seed kind " + sk for rt, sk in more})
         mstates = lean.call("c18.pipe", {"nodes": [[k, t] for k, t in enumerate(kinds)], "steps": msteps})[-1]
         ti = 0
